@@ -5,7 +5,7 @@ CONSTANTS NAcc = 1
           MaxDiffs = {1, 2}
           HistLimits = {0, 1}
           Policies = {"any"}
-          Asyncs = {FALSE}
+          Asyncs = {TRUE}
           MaxId = 3
 INVARIANTS TypeOK Reopens Consistent SyncedCoversPersisted
 PROPERTIES RecoverRestores RecoverFailKeeps
